@@ -228,7 +228,7 @@ func c20GenIP(rng *mrand.Rand) (net.IP, string) {
 	}
 }
 
-var c20Windows = []string{"default", "default", "current", "current", "expired", "future", "short-past", "long", "inverted"}
+var c20Windows = []string{"default", "default", "current", "current", "expired", "future", "short-past", "long", "inverted", "from-only", "until-only", "from-only", "until-only"}
 
 func c20Window(name string, now time.Time) (nb, na time.Time) {
 	d := func(y int) time.Time { return time.Date(y, 6, 1, 12, 0, 0, 0, time.UTC) }
@@ -245,6 +245,12 @@ func c20Window(name string, now time.Time) (nb, na time.Time) {
 		return d(2000), d(2089)
 	case "inverted":
 		return d(2031), d(2030)
+	case "from-only":
+		// only the start is requested: the tool picks the end (a year from now)
+		return now.Add(-time.Hour), time.Time{}
+	case "until-only":
+		// only the end is requested: the tool picks the start (now)
+		return time.Time{}, now.AddDate(0, 6, 0)
 	}
 	return time.Time{}, time.Time{} // "default": the tool picks now .. now+1y
 }
@@ -558,7 +564,14 @@ func (e *c20Env) c20CheckCert(t *c20Triple, cert *x509.Certificate, caCert *x509
 	// --- receptor's own peer verification: each requested id, no other id
 	tlscfg := &tls.Config{RootCAs: pool, ClientCAs: pool}
 	now := time.Now()
-	current := !cert.NotBefore.After(now) && cert.NotAfter.Add(-60*time.Second).After(now) // NotBefore is never ahead of this process's own clock
+	// "current" follows from the validity window that was REQUESTED (an unset bound is chosen by the tool: start = now,
+	// end = a year from now), not from what the certificate happens to carry: a certificate whose window is not the
+	// requested one and that is refused for that reason is refused for a requested id all the same
+	nbReq, naReq := c20Window(t.Window, e.now)
+	current := (nbReq.IsZero() || !nbReq.After(now)) && (naReq.IsZero() || naReq.Add(-60*time.Second).After(now)) && (nbReq.IsZero() || naReq.IsZero() || naReq.After(nbReq))
+	if current && (cert.NotBefore.After(now) || !cert.NotAfter.After(now)) {
+		run.Count("certificates_not_valid_now_although_the_requested_window_is_current", 1)
+	}
 	call := func(id string, vt netceptor.VerifyType) (err error) {
 		defer func() {
 			if r := recover(); r != nil {
@@ -1103,8 +1116,12 @@ func (e *c20Env) cli(bin string, triples []*c20Triple, n int) {
 				return
 			}
 			sargs := []string{"--cert-signreq", "req=" + p + ".req", "cacert=ca.crt", "cakey=ca.key", "outcert=" + p + ".crt", "verify=true"}
-			if nb, na := c20Window(t.Window, e.now); !nb.IsZero() {
-				sargs = append(sargs, "notbefore="+nb.UTC().Format(time.RFC3339), "notafter="+na.UTC().Format(time.RFC3339))
+			nb, na := c20Window(t.Window, e.now)
+			if !nb.IsZero() {
+				sargs = append(sargs, "notbefore="+nb.UTC().Format(time.RFC3339))
+			}
+			if !na.IsZero() {
+				sargs = append(sargs, "notafter="+na.UTC().Format(time.RFC3339))
 			}
 			if out, err := c20RunCLI(ctx, bin, dir, sargs...); err != nil {
 				if ctx.Err() != nil {
